@@ -595,6 +595,8 @@ def c16(ctx):
     from . import drv_walk as d
     thorough = ctx.tier == 'thorough'
     ctx.mc('Walker', 'MC_Walker.cfg', timeout=3000)
+    # the start directory's identity missing from the ancestor lists (F30) must be exhibited
+    ctx.mc('Walker', 'MC_Walker_F30.cfg', expect_violation='Correct', coverage=False)
     n = 12000 if thorough else 700
     out = core.pool_map(d.one_graph, [(ctx.seed, i, {}) for i in range(n)])
     recs = [r for o in out for r in o]
